@@ -250,7 +250,7 @@ func TestC05Rapid(t *testing.T) {
 	if !raceEnabled {
 		t.Log("note: not a -race build; only results are compared")
 	}
-	journal := os.Getenv("VERIF_JOURNAL")
+	journal := harness.OpenJournal()
 	runRapid(t, uC05, func(rt *rapid.T) {
 		doc := xgen.Doc(rt, xgen.DefaultDoc())
 		ctx := xgen.Context(rt, doc, 4)
@@ -294,9 +294,7 @@ func TestC05Rapid(t *testing.T) {
 			uC05.Skip()
 			return
 		}
-		if journal != "" {
-			harness.WriteCase(journal, l.Save())
-		}
+		journal.Record(l.Save())
 		info, f := oracleC05(l)
 		if f != nil {
 			harness.Report(rt, uC05, l, f)
@@ -305,7 +303,5 @@ func TestC05Rapid(t *testing.T) {
 			return map[string]interface{}{"expr": l.Expr, "doc": doc.String(), "plan": plans, "reps": reps}
 		})
 	})
-	if journal != "" {
-		os.Remove(journal)
-	}
+	journal.Close()
 }
